@@ -860,16 +860,16 @@ class Channel:
         if not self._closed:
             # state transition "opened/sendonly" --> "closed"
             # threads warning: the channel might be closed under our feet,
-            # but it's never damaging to send too many CHANNEL_CLOSE messages
-            # however, if the other side triggered a close already, we
-            # do not send back a closed message.
-            if not self._receiveclosed.is_set():
-                put = self.gateway._send
-                if error is not None:
-                    put(Message.CHANNEL_CLOSE_ERROR, self.id, dumps_internal(error))
-                else:
-                    put(Message.CHANNEL_CLOSE, self.id)
-                self._trace("sent channel close message")
+            # but it's never damaging to send too many CHANNEL_CLOSE messages.
+            # In "sendonly" state the other side dropped its channel object
+            # but may still have a callback waiting for the endmarker, so
+            # the close message is sent there as well.
+            put = self.gateway._send
+            if error is not None:
+                put(Message.CHANNEL_CLOSE_ERROR, self.id, dumps_internal(error))
+            else:
+                put(Message.CHANNEL_CLOSE, self.id)
+            self._trace("sent channel close message")
             if isinstance(error, RemoteError):
                 self._remoteerrors.append(error)
             self._closed = True  # --> "closed"
